@@ -170,7 +170,7 @@ class C19(runner.Check):
              "raise vs Volatile creation) are mirrored by the model, not judged.",
         technique="Lean 4 proof (induction over op histories, invariants) + differential correspondence + Python oracle")
     theorems = ('TM.C19_tags', 'TM.C19_error_iff', 'TM.C19_volatile_fresh', 'TM.C19_volatile_removed',
-                'TM.C19_volatile_history', 'TM.C19_retry_exact', 'TM.C19_per_model_frame', 'TM.C19_per_model',
+                'TM.C19_volatile_history', 'TM.C19_retry_exact', 'TM.C19_retry_unlimited', 'TM.C19_per_model_frame', 'TM.C19_per_model',
                 'TM.C19_feature_free_unchanged', 'TM.C19_flat_trigger')
     rule = ('random decorated machine classes: every subset of {Tags, Error, Volatile, Retry} in random decorator order '
             '(Tags-before-Error excluded: TypeError) x {Machine, LockedMachine, HierarchicalMachine, '
